@@ -16,15 +16,17 @@ for (const line of fs.readFileSync(process.argv[2], 'utf8').split('\n')) {
   let aborted = 0, threw = 0;
   for (let run = 0; run < RUNS; run++) {
     const r = rng(run * 7919 + src.length);
-    let steps = 0;
-    const m = (p) => { executed.add(p); if (++steps > BUDGET) throw ABORT; };
+    let steps = 0, dead = false;
+    // once the step budget is used up the run is over: the abort unwinds through the program's own `finally` / `catch`
+    // blocks, and nothing that runs from then on is an execution of the program
+    const m = (p) => { if (dead) throw ABORT; executed.add(p); if (++steps > BUDGET) { dead = true; throw ABORT; } };
     const opaque = () => {
       const f = function () {};
       return new Proxy(f, {
         get(t, k) { if (k === Symbol.toPrimitive) return () => (r() < 0.5 ? 1 : 0); if (k === Symbol.iterator) return function* () { while (r() < 0.5) yield value(); }; if (k === 'then') return undefined; if (r() < 0.08) throw new Error('get'); return value(); },
         set() { if (r() < 0.05) throw new Error('set'); return true; },
         has() { return r() < 0.5; },
-        apply() { if (++steps > BUDGET) throw ABORT; if (r() < 0.2) throw new Error('call'); return value(); },
+        apply() { if (dead || ++steps > BUDGET) { dead = true; throw ABORT; } if (r() < 0.2) throw new Error('call'); return value(); },
         construct() { if (r() < 0.2) throw new Error('new'); return opaque(); },
         ownKeys() { return r() < 0.5 ? ['a', 'b'] : []; },
         getOwnPropertyDescriptor() { return { value: 1, enumerable: true, configurable: true, writable: true }; },
